@@ -389,6 +389,9 @@ def run_check(spec, argv):
             problems.append(("runner", f"implementation runner failed rc={rc}: " + out[-1500:]))
         else:
             lines, verdicts = run_driver(pid, cases_file)
+            if replay and lines and all(re.match(r"^ok[ -_]?(not-?run|skip)", v or "") for v in verdicts):
+                # a replay in which nothing was observed (environment) shows nothing either way
+                problems.append(("runner", "replay: every case came back not-run / skipped (environment): nothing was observed"))
             floor = 1 if replay else spec.get("min_cases", {}).get(tier, max(1, min(20, spec["sizes"][tier] // 20)))
             if len(lines) < floor:
                 problems.append(("runner", f"the runner produced {len(lines)} case lines, fewer than the floor {floor}: "
